@@ -209,7 +209,7 @@ def check(chk: Check) -> None:
                             # this path took the failing side: it must raise ParserError, nothing else
                             g = guards_seen.setdefault(id(e.node), {'node': e.node, 'fn': e.fn, 'k': set(), 'where': wh,
                                                                    'fail_ok': None, 'text': e.text()})
-                            rest = [x for x in p.events[idx + 1:] if x.kind not in ('assume', 'return') and not (
+                            rest = [x for x in p.events[idx + 1:] if x.kind not in ('assume', 'return', 'log') and not (
                                 x.kind == 'call' and (x.d.get('ctor') or x.d.get('inlined') or common.builds_message(x)))]
                             ok = p.outcome[0] == 'raise' and common.is_parser_error(F, common.raised_class(F, p.outcome[1])) \
                                 and all(x.kind == 'raise' for x in rest)
